@@ -67,6 +67,17 @@ def c15_traces():
     t[1]["slots"][ui]["h"] += 100                                           # but UtM is not exempt
     add("g", t, [("ge2", "ObjectMutated")])
     t = copy.deepcopy(base)
+    t[0]["forms"] = ["modes:weird"]                                          # a form the spec does not declare
+    add("i", t, [("ie1", "UnknownArgForm")])
+    t = copy.deepcopy(base)                                                  # a published call form refused with TypeError
+    t[0]["forms"] = t[1]["forms"] = ["call:keyword"]
+    t[1]["ev"], t[1]["exc"] = "Raise", "TypeError"
+    add("j", t, [("je2", "PublishedCallFormRefused")])
+    t = copy.deepcopy(base)                                                  # ... but any other exception is just an exit
+    t[0]["forms"] = t[1]["forms"] = ["call:positional"]
+    t[1]["ev"], t[1]["exc"] = "Raise", "ValueError"
+    add("k", t, [])
+    t = copy.deepcopy(base)
     del t[1]["slots"][0]                                                    # a slot withheld from the exit event
     add("h", t, [("he2", "Malformed"), ("he3", "Malformed")])
     return out, sorted(expect)
